@@ -125,7 +125,7 @@ def run_tlc(work, module, cfg=None, constants=None, dump=True, workers=16, timeo
     return res
 
 
-_VAR = re.compile(r"^/\\ (\w+) = ", re.M)
+_VAR = re.compile(r"^(?:/\\ )?(\w+) = ", re.M)
 
 
 def tla_to_py(text):
